@@ -160,7 +160,7 @@ pub struct DensState {
     pub nb_empty: i64,
 }
 
-pub trait UNode {
+pub trait UNode: Send {
     fn deliver(&mut self, id: u64);
     /// sketch_slice (for the densified sketchers this also finishes)
     fn chunk(&mut self, ids: &[u64]) -> bool;
